@@ -905,6 +905,10 @@ class Interp:
                     v = Sym('subscript', origin=('index', base, idx), node=node)
             if v is None:
                 v = Sym(type(node).__name__.lower(), origin=('op', type(node).__name__, vals), node=node)
+                if isinstance(node, ast.BinOp) and isinstance(node.op, ast.Div) \
+                        and any(isinstance(x, K) and isinstance(x.v, str) for x in vals):
+                    # `path / 'name'`: a pathlib join - the result is a path object (never None, always true)
+                    v.truth, v.nullness = True, False
             out.append(('val', v, s))
         return out
 
